@@ -1,6 +1,8 @@
 package checks
 
 import (
+	"github.com/fiorix/go-diameter/v4/diam/datatype"
+	"github.com/fiorix/go-diameter/v4/diam/dict"
 	"verif/internal/refdict"
 	"bytes"
 	"encoding/json"
@@ -592,7 +594,65 @@ func c04Minimise(c *Config, cs C04Case) C04Case {
 	return cs
 }
 
+// c04FaultyDecoder: an application-defined data type whose decoder faults (panics) on a payload of
+// the wrong size, at top level and inside a group, between two ordinary AVPs. Whatever the library
+// does about the fault - let the panic reach the caller, report an error - it must not hand back a
+// message that silently lacks the AVPs from the faulting one on.
+type c04Word uint16
+
+func (v c04Word) Serialize() []byte     { return []byte{byte(v >> 8), byte(v)} }
+func (v c04Word) Len() int              { return 2 }
+func (v c04Word) Padding() int          { return 2 }
+func (v c04Word) Type() datatype.TypeID { return datatype.TypeID(202) }
+func (v c04Word) String() string        { return fmt.Sprintf("Word{%d}", uint16(v)) }
+
+func c04FaultyDecoder() string {
+	datatype.Available["Verif-Word"] = datatype.TypeID(202)
+	datatype.Decoder[datatype.TypeID(202)] = func(b []byte) (datatype.Type, error) {
+		return c04Word(uint16(b[0])<<8 | uint16(b[1])), nil // no length check: indexes past a short payload
+	}
+	defer func() { delete(datatype.Available, "Verif-Word"); delete(datatype.Decoder, datatype.TypeID(202)) }()
+	p, err := dict.NewParser()
+	if err == nil {
+		err = p.Load(strings.NewReader(`<?xml version="1.0" encoding="UTF-8"?><diameter><application id="0" name="Word">
+<command code="9900" short="WD" name="Word-Test"><request><rule avp="Word" required="false"/></request><answer><rule avp="Word" required="false"/></answer></command>
+<avp name="Word" code="9001" must="M"><data type="Verif-Word"/></avp>
+<avp name="Word-Group" code="9100" must="M"><data type="Grouped"/></avp>
+<avp name="Plain" code="9002" must="M"><data type="UTF8String"/></avp></application></diameter>`))
+	}
+	if err != nil {
+		return ""
+	}
+	plain := func(s string) refcodec.Node { return refcodec.Node{Code: 9002, Flags: 0x40, Payload: []byte(s)} }
+	for _, pl := range [][]byte{{7, 9}, {7}, {}} {
+		word := refcodec.Node{Code: 9001, Flags: 0x40, Payload: pl}
+		for gi, nodes := range [][]refcodec.Node{{plain("a"), word, plain("b")}, {plain("a"), {Code: 9100, Flags: 0x40, Group: true, Children: []refcodec.Node{plain("in"), word}}, plain("b")}, {word, plain("b")}} {
+			wire := refcodec.EncodeMessage(refcodec.Header{Version: 1, Flags: 0x80, Code: 9900, HbH: 1, E2E: 1}, nodes)
+			var m *diam.Message
+			var rerr error
+			func() {
+				defer func() {
+					if r := recover(); r != nil {
+						rerr = fmt.Errorf("panic: %v", r) // the fault reached the caller: no message was reported
+					}
+				}()
+				m, rerr = diam.ReadMessage(bytes.NewReader(wire), p)
+			}()
+			if rerr == nil && m != nil && len(m.AVP) != len(nodes) {
+				return fmt.Sprintf("a message of %d top-level AVPs whose application-defined AVP (payload of %d octets, shape %d) makes its decoder fault was returned WITHOUT error and with %d AVPs: everything from the faulting AVP on was dropped silently", len(nodes), len(pl), gi, len(m.AVP))
+			}
+		}
+	}
+	return ""
+}
+
 func runC04(ctx *ev.Ctx) {
+	if ctx.Mine() {
+		ctx.Eval(ev.HS("faulty application decoder"))
+		if what := c04FaultyDecoder(); what != "" {
+			ctx.Report("", generalise(what), what, C04Case{Config: "faulty-decoder"})
+		}
+	}
 	n := 0
 	ctx.Rule = c04Enum(ctx, func(c *Config, cs C04Case) {
 		if ctx.Stop() {
@@ -614,7 +674,7 @@ func runC04(ctx *ev.Ctx) {
 			ctx.Report("", generalise(what), what+" | case: "+mc.Desc(), mc)
 		}
 	})
-	ctx.Rule += " An all-zero AVP header (code 0, Length 0) behind complete AVPs, alone / as a zero-filled tail / in front of well-formed AVPs / inside a group. Every body is read under seven further command-flag bytes of the message header (answer, error answer, proxiable, retransmitted, reserved bits): same verdict and same AVPs. Leaves and vendor-less groups sent with the V flag and a Vendor-Id field of zero (12-byte header), at top level and inside a group. Groups defined by different applications of the message's parent chain (two per application) nested in each other to depth 3 in both directions. The code of every vendor-less Grouped AVP also under a foreign vendor id (a leaf), directly after / before / inside the real group. Wide containers: a grouped AVP behind 0..257 sibling members (counts around 16, 32, 64 and 256), at top level, inside a group and two levels down. Every accepted body is read a second time overlapping with a complete read from another source, after an oversize message. Every top-level record of every accepted body is also decoded with the exported AVP.DecodeFromBytes into ONE AVP value that held a vendor-specific AVP first and then every earlier record, and compared with a fresh decode of the same bytes."
+	ctx.Rule += " An application-defined data type whose decoder faults on short payloads, at top level and inside a group: never a message returned without error and with fewer AVPs. An all-zero AVP header (code 0, Length 0) behind complete AVPs, alone / as a zero-filled tail / in front of well-formed AVPs / inside a group. Every body is read under seven further command-flag bytes of the message header (answer, error answer, proxiable, retransmitted, reserved bits): same verdict and same AVPs. Leaves and vendor-less groups sent with the V flag and a Vendor-Id field of zero (12-byte header), at top level and inside a group. Groups defined by different applications of the message's parent chain (two per application) nested in each other to depth 3 in both directions. The code of every vendor-less Grouped AVP also under a foreign vendor id (a leaf), directly after / before / inside the real group. Wide containers: a grouped AVP behind 0..257 sibling members (counts around 16, 32, 64 and 256), at top level, inside a group and two levels down. Every accepted body is read a second time overlapping with a complete read from another source, after an oversize message. Every top-level record of every accepted body is also decoded with the exported AVP.DecodeFromBytes into ONE AVP value that held a vendor-specific AVP first and then every earlier record, and compared with a fresh decode of the same bytes."
 	ctx.Assume = []string{"reference framer (refcodec.Frame) walks by pad4(declared length) only", "a by-Length decoder accepts a sequence iff it accepts each record on its own (used to tell a legitimate value rejection from a framing error)"}
 }
 
@@ -622,6 +682,9 @@ func replayC04(ctx *ev.Ctx, raw json.RawMessage) string {
 	var cs C04Case
 	if err := json.Unmarshal(raw, &cs); err != nil {
 		ev.Infra("replay: %v", err)
+	}
+	if cs.Config == "faulty-decoder" {
+		return c04FaultyDecoder()
 	}
 	fmt.Println("  case:", cs.Desc())
 	fmt.Printf("  body: %x\n", cs.body())
